@@ -69,6 +69,28 @@ def apply_contract(fn_text, c, log=None):
         attrs += '#[verifier::external_body]\n'
     return attrs + header.rstrip() + ' ' + spec + body
 
+def mirror(fn_text, name, log=None):
+    """R-mirror: for a pure, loop-free helper the contract is generated, not hand-written: the fn's own text is copied as
+    `open spec fn <name>__spec(<same params>) -> <same type> { <same body> }` and the exec fn gets `ensures r == <name>__spec(<params>)`.
+    The helper is then transparent to its callers, whose postconditions (written from the property statement) are what decide;
+    a refactoring of the helper - including of its signature - neither loses an anchor nor needs a new contract.
+    Returns (spec_text, contracted_exec_text)."""
+    t = strip_attrs_and_docs(fn_text)
+    header, body = split_fn(t)
+    header = re.sub(r'\bconst\s+fn\b', 'fn', header)
+    m = re.search(r'fn\s+%s\s*\((.*)\)\s*->' % re.escape(name), header, re.S)
+    if not m: raise AnchorLost(f'{name}: signature not of the form fn {name}(..) -> T')
+    params = [q.strip() for q in m.group(1).split(',') if q.strip()]
+    names = []
+    for q in params:
+        mm = re.match(r'(?:mut\s+)?(\w+)\s*:', q)
+        if not mm: raise AnchorLost(f'{name}: parameter pattern `{q}` not a plain identifier')
+        names.append(mm.group(1))
+    sh = re.sub(r'^\s*(pub(\([^)]*\))?\s+)?fn\s+%s' % re.escape(name), f'pub open spec fn {name}__spec', header.strip())
+    spec = sh + ' ' + body + '\n'
+    if log is not None: log.append(f'R-mirror: {name}: body copied as spec fn {name}__spec; contract `r == {name}__spec(..)` generated')
+    return spec, apply_contract(fn_text, C(ensures=[f'r == {name}__spec({", ".join(names)})'], strip_const=True))
+
 class Gen:
     """Assembles one single-file Verus crate and remembers, per generated fn, where it came from."""
     def __init__(self, name):
